@@ -192,6 +192,7 @@ var UniChoice = &Universe{Name: "choice", Tmpls: tmpls(
 	"chc/ce/ia", "chc/ce/ib", "chc/ce/ib2", "chc/ce/ia-x", "chc/ce/pv",
 	"chc/nest/oi/na", "chc/nest/oi/nb", "chc/nest/oi/oil", "chc/nest/o1l", "chc/nest/oc",
 	"plain/descr", "plain/l1/descr",
+	"chc/cb-x/v", "chc/cl-more/v",
 )}
 
 // UniChoiceNoList: as UniChoice without the choice members inside list entries.
@@ -200,6 +201,7 @@ var UniChoiceNoList = &Universe{Name: "choice-nolist", Tmpls: tmpls(
 	"chc/ce/ia-x", "chc/ce/pv",
 	"chc/nest/oi/na", "chc/nest/oi/nb", "chc/nest/oi/oil", "chc/nest/o1l", "chc/nest/oc",
 	"plain/descr", "plain/l1/descr",
+	"chc/cb-x/v", "chc/cl-more/v",
 )}
 
 var Universes = map[string]*Universe{"plain": UniPlain, "plain+nonalpha": UniPlainNA, "choice": UniChoice, "choice-nolist": UniChoiceNoList}
